@@ -49,6 +49,12 @@ func (w *c05World) post(depth int) {
 func (w *c05World) check() {
 	vf.Assert("pending-counts-posts-not-run", w.ioc.Pending() == int64(w.posted-w.nran+w.inflight))
 	vf.Assert("posted-counts-posts-not-run", w.ioc.Posted() == w.posted-w.nran)
+	// between poll cycles: a handler that is still queued is announced on the eventfd, otherwise a loop
+	// blocking in epoll_wait would never run it
+	if w.posted-w.nran > 0 {
+		wfd := internal.VerifWakerFd(w.ioc.poller)
+		vf.Assert("queued-handler-keeps-the-waker-readable", vkernel.K.FDs[wfd].Counter > 0)
+	}
 	for i := 0; i+1 < w.nran; i++ {
 		vf.Assert("handlers-run-in-posting-order", w.order[i] < w.order[i+1])
 	}
